@@ -312,6 +312,12 @@ class FnTr:
                 if op == '%':
                     raise Unsupported('float %')
                 return f'({a} {op} {b})', 'real'
+            if ta == tb and ta in ('nat', 'int') and op in ('+', '*') and (self.is_kind_var(lhs) or self.is_kind_var(rhs)):
+                # arithmetic in the observation's own integer type wraps at its width (release build; debug panics)
+                self.c.uses_kbits = True
+                self.tr.cur_notes.append('arithmetic in $kind wraps at the width of the kind (release build)')
+                fn = 'wrapNat' if ta == 'nat' else 'wrapInt'
+                return f'({fn} kbits ({a} {op} {b}))', ta
             if ta == tb and ta in ('nat', 'int'):
                 if op == '-' and ta == 'nat':
                     self.tr.cur_notes.append('unsigned subtraction modelled as truncated')
@@ -342,6 +348,11 @@ class FnTr:
                 return f'({a} {op} {b})', 'bool'
             raise Unsupported(f'cmp {op} on {ta},{tb}')
         raise Unsupported(f'binop {op}')
+
+    def is_kind_var(self, e):
+        while e[0] in ('paren', 'deref', 'ref'):
+            e = e[1]
+        return e[0] == 'path' and len(e[1]) == 1 and e[1][0] in getattr(self.c, 'kind_vars', ())
 
     def if_expr(self, e, want=None):
         cond, tc = self.expr(e[1])
